@@ -121,17 +121,19 @@ class _InMemoryFeedback(Feedback):
       if not self._trial.measurements:
         raise ValueError(
             f'At least one measurement should be added for trial {self.id}.')
-      self._trial.status = 'COMPLETED'
-      self._trial.final_measurement = self._trial.measurements[-1]
-      self._feedback_fn(self.dna, self._trial)
-      self._trial.metadata.update(metadata or {})
-      self._study._complete_trial(self._trial)  # pylint: disable=protected-access
+      # NOTE: workers of the same group share the pending trial: only the one
+      # that wins the PENDING -> COMPLETED transition reports it.
+      if self._study._mark_completed(self._trial):  # pylint: disable=protected-access
+        self._trial.final_measurement = self._trial.measurements[-1]
+        self._feedback_fn(self.dna, self._trial)
+        self._trial.metadata.update(metadata or {})
+        self._study._complete_trial(self._trial)  # pylint: disable=protected-access
 
   def skip(self, reason: Optional[str] = None) -> None:
     """Skips current trial without providing feedback to the controller."""
     del reason
-    if self._trial.status == 'PENDING':
-      self._trial.status = 'COMPLETED'
+    if (self._trial.status == 'PENDING'
+        and self._study._mark_completed(self._trial)):  # pylint: disable=protected-access
       self._trial.infeasible = True
       self._trial.final_measurement = Measurement(
           reward=0.0, step=0, elapse_secs=0.0)
@@ -180,20 +182,44 @@ class _InMemoryResult(Result):
     self._best_trial = None
     self._latest_trial_per_group = {}
     self._lock = threading.Lock()
+    # Serializes the feedbacks to the (shared) search algorithm.
+    self._feedback_lock = threading.Lock()
 
   def create_trial(
       self, dna_fn: Callable[[], geno.DNA], group_id: str) -> Trial:
     """Appends a trial to the result."""
     with self._lock:
-      if (self._max_num_trials is not None
-          and self.next_trial_id() > self._max_num_trials):
-        raise StopIteration()
-      trial = Trial(id=self.next_trial_id(), dna=dna_fn(), status='PENDING',
-                    created_time=int(time.time()), metadata=dict())
-      self._trials.append(trial)
-      self._num_trials_by_status['PENDING'] += 1
-      self._latest_trial_per_group[group_id] = trial
+      return self._create_trial(dna_fn, group_id)
+
+  def get_or_create_trial(
+      self, dna_fn: Callable[[], geno.DNA], group_id: str) -> Trial:
+    """Returns the pending trial of a group, or creates the next trial."""
+    with self._lock:
+      trial = self._latest_trial_per_group.get(group_id, None)
+      if trial is None or trial.status != 'PENDING':
+        trial = self._create_trial(dna_fn, group_id)
+      return trial
+
+  def _create_trial(
+      self, dna_fn: Callable[[], geno.DNA], group_id: str) -> Trial:
+    """Creates a trial. `self._lock` must be held."""
+    if (self._max_num_trials is not None
+        and self.next_trial_id() > self._max_num_trials):
+      raise StopIteration()
+    trial = Trial(id=self.next_trial_id(), dna=dna_fn(), status='PENDING',
+                  created_time=int(time.time()), metadata=dict())
+    self._trials.append(trial)
+    self._num_trials_by_status['PENDING'] += 1
+    self._latest_trial_per_group[group_id] = trial
     return trial
+
+  def _mark_completed(self, trial: Trial) -> bool:
+    """Moves a pending trial to COMPLETED. Returns False if it was not pending."""
+    with self._lock:
+      if trial.status != 'PENDING':
+        return False
+      trial.status = 'COMPLETED'
+      return True
 
   def _complete_trial(self, trial: Trial) -> None:
     """Status change callback."""
@@ -297,12 +323,13 @@ class _InMemoryBackend(backend.Backend):
     """Constructor."""
     super().__init__()
 
-    if name is None or name not in _in_memory_results:
-      study = _InMemoryResult(name, num_examples)
-      if name is not None:
-        _in_memory_results[name] = study
-    else:
-      study = _in_memory_results[name]
+    with _in_memory_results_lock:
+      if name is None or name not in _in_memory_results:
+        study = _InMemoryResult(name, num_examples)
+        if name is not None:
+          _in_memory_results[name] = study
+      else:
+        study = _in_memory_results[name]
 
     if group is None:
       group = str(threading.get_ident())
@@ -357,7 +384,8 @@ class _InMemoryBackend(backend.Backend):
     """Feedback callback for a trial."""
     reward = trial.get_reward_for_feedback(self._metrics_to_optimize)
     if reward is not None:
-      self._algorithm.feedback(dna, reward)
+      with self._study._feedback_lock:  # pylint: disable=protected-access
+        self._algorithm.feedback(dna, reward)
 
   def _should_stop_early(self, trial: Trial) -> bool:
     if self._early_stopping_policy is not None:
@@ -374,9 +402,7 @@ class _InMemoryBackend(backend.Backend):
       raise StopIteration()
 
     # If current session is pending, always return current session.
-    trial = self._study.get_latest_trial(self._group_id)
-    if trial is None or trial.status != 'PENDING':
-      trial = self._study.create_trial(next_dna, self._group_id)
+    trial = self._study.get_or_create_trial(next_dna, self._group_id)
     return self._create_feedback(self._study, trial)
 
   @classmethod
@@ -389,3 +415,4 @@ class _InMemoryBackend(backend.Backend):
 
 # Global dictionary for locally sampled in-memory results by name.
 _in_memory_results: Dict[str, _InMemoryResult] = {}
+_in_memory_results_lock = threading.Lock()
